@@ -20,6 +20,14 @@ def evalC16 (ins outs : List String) : Verdict :=
       else .ok "knowngossip"
     | some s, _, _, _, _ => .prop "c16_not_wedged" s!"knowngossip: start={s}"
     | _, _, _, _, _ => .bad "C16 knowngossip fields"
+  | some "hashpin" =>
+    -- SyncFromHash has priority: with the tail on that header, renewals keep it and delete nothing
+    match kvNat? ins "pin", kv? outs "renewals", kvNat? outs "tail", kvNat? outs "gone" with
+    | some pin, some rs, some tl, some gone =>
+      if (rs.splitOn ",").any (· == "panic") then .prop "c16_no_panic" s!"renewals={rs}" else
+      if rs != "ok,ok,ok" then .prop "c16_not_wedged" s!"renewals={rs}" else
+      if tl != pin || gone != 0 then .prop "c16_retention" s!"tail pinned by SyncFromHash at {pin}: now {tl}, {gone} stored headers above it are gone" else .ok "hashpin"
+    | _, _, _, _ => .bad "C16 hashpin fields"
   | some "emptyinit" =>
     -- first tail selection over an empty store with the tail request failing once: an error, not a panic, and no wedge
     match kvNat? ins "sfh", kvNat? ins "n", kv? outs "r1", kvNat? outs "stored1", kv? outs "r2", kvNat? outs "tail" with
